@@ -89,6 +89,12 @@ chk("C20", "enum",
     "The helper table is hand-written and audited against the current tree's AST on every run (gaps listed in the evidence); type-specific Equals methods are outside the stated helper families.",
     "DESIGN.md §3 C20")
 
+chk("C07", "enum",
+    "complete enumeration of type names x dispatch channels x hook configurations on the implementation against an independent vocabulary table",
+    "Every name of the vocabulary table (united with the live type lists, the empty name and 3 unknown names) is sent through the registry, JSON (top / nested item / nested list) and gob (top / nested item / nested list) with hooks unset and set; the Go type, the marker value (id, name, every family-specific property), family-list membership, IsObject/IsLink/IsCollection and the On*/To* acceptance matrix are compared with the table.",
+    "The table in c07.go is hand-written from the ActivityStreams vocabulary; reading D3.",
+    "DESIGN.md §3 C07")
+
 manifest = {
     "version": 1,
     "setup_cmd": "./setup.sh",
